@@ -92,16 +92,16 @@ type lval struct {
 }
 
 type logicEnv struct {
-	prog     *Program
-	leaves   map[string]bool // key -> isBool
-	parent   map[string]string
-	groupCs  map[string]map[int64]bool
-	consts   map[int64]bool
-	val      map[string]lval
-	collect  bool
-	depth    int
-	giveUp   string
-	bitops   bool
+	prog    *Program
+	leaves  map[string]bool // key -> isBool
+	parent  map[string]string
+	groupCs map[string]map[int64]bool
+	consts  map[int64]bool
+	val     map[string]lval
+	collect bool
+	depth   int
+	giveUp  string
+	bitops  bool
 }
 
 // leafKey renders an expression canonically: parentheses and integer
@@ -598,7 +598,6 @@ func (p *Program) Satisfiable(a Formula) (bool, bool) {
 // FalseExpr is an expression that is false under every valuation.
 var FalseExpr ast.Expr = &ast.Ident{Name: "false"}
 
-
 // FormulaString renders the atoms for reports.
 func (p *Program) FormulaString(f Formula) string {
 	var parts []string
@@ -895,7 +894,6 @@ func (p *Program) TabulateFunc(fn *Func, domains map[string][]int64, cb func(env
 	}
 	return true, ""
 }
-
 
 // domainFor finds the domain of a leaf: by suffix of its key (".Colors") or
 // by the name of the local variable the key starts with ("acc" for "acc@12",
